@@ -1122,3 +1122,27 @@ pub fn describe(kind: &Kind, vals: &[Val]) -> Value {
     }
     json!({"kind": kind.name, "fields": Value::Object(m)})
 }
+
+/// Value at a json_diff_path-style path ("a.b[].c" - arrays: first element that exists).
+pub fn describe_path(root: &Value, path: &str) -> String {
+    let mut cur = root;
+    for part in path.split('.') {
+        let (name, arr) = match part.strip_suffix("[]") {
+            Some(n) => (n, true),
+            None => (part, false),
+        };
+        if !name.is_empty() && name != "len" {
+            match cur.get(name) {
+                Some(v) => cur = v,
+                None => break,
+            }
+        }
+        if arr {
+            match cur.as_array().and_then(|a| a.first()) {
+                Some(v) => cur = v,
+                None => break,
+            }
+        }
+    }
+    cur.to_string().chars().take(80).collect()
+}
